@@ -20,7 +20,21 @@ From BB Require Import BN Brute SpaceFacts TrapFacts PercolateFacts AttractorFac
   Strict PetriNet Control Meta FilterFacts PetriNetFacts TrappistFacts DiagramStruct DiagramSem1 DiagramCache
   DiagramDepth DiagramComplete Termination ControlFacts MetaFacts Candidates StrictFacts MinExpandFacts CandidatesFacts SymbolicTest SymbolicTestFacts Signed ReductionFacts ControlFacts2 Main Blocks BlocksFacts ObsFacts OwnerFacts CandidatesTerm
   PartialOwner BlockMath BlockComplete ASeeds ASeedsFacts LogChecks SkipRule SkipRuleFacts Names NamesFacts Perm PermFacts SCC SCCFacts SCCStruct ControlFacts3 SCCTerm FilterSym Main2 StrategyFacts ControlFacts4 SkipRuleFacts2 SCCComplete SCCAttr BlockComplete2 ControlFacts5 Iso SkipSem ControlFacts6.
-From BB Require Import PyLib PyLibSd PySrcSdBase PySrcSd PySrcSdFacts.
+From BB Require Import PyLib PyLibSd PySrcSdBase PySrcSd PySrcSdFacts PyLib PyLibSd PyLibCore PyLibSd2 PySrcSdBase PySrcSdMin PySrcSdMinFacts.
+
+(* translator tie: the function GENERATED from the current text of biobalm/_sd_algorithms/expand_minimal_spaces.py (with its nested make_skip_node; PySrcSdMin.v) equals the model's expand_min on every well-formed diagram, for every start node, limit, skip option and fuel, given the tape contract *)
+Theorem C03_source_expand_minimal_spaces : forall (fuel : nat) (N : net) (cfg : config) (d : sd) (start size_limit : option nat) (skip : bool) (tape : list space), SWF N d -> TrapNodes N d -> EdgeStrict d -> start_of start < size d -> perm_of tape (min_traps_b N (n_space (get d (start_of start)))) = true -> py_expand_minimal_spaces fuel N cfg d tape start size_limit skip = expand_min fuel N cfg d start size_limit skip tape.
+Proof. exact py_expand_minimal_spaces_spec. Qed.
+
+Theorem C03_source_public_expand_minimal_spaces : forall (fuel : nat) (N : net) (cfg : config) (d : sd) (start size_limit : option nat) (skip : bool) (tape : list space), SWF N d -> TrapNodes N d -> EdgeStrict d -> start_of start < size d -> perm_of tape (min_traps_b N (n_space (get d (start_of start)))) = true -> py_api_expand_minimal_spaces fuel N cfg d tape start size_limit skip = expand_min fuel N cfg d start size_limit skip tape.
+Proof. exact py_api_expand_minimal_spaces_spec. Qed.
+
+(* the nested make_skip_node on its own equals the model's make_skip_node when the node is expanded or its space is not one of the minimal trap spaces (always the case inside expand_minimal_spaces); without that condition the text asserts where the model adds a self-loop: py_make_skip_node_spec_counterexample *)
+Theorem C03_source_make_skip_node : forall (N : net) (cfg : config) (d : sd) (i : nat) (all_min : list space), SWF N d -> TrapNodes N d -> EdgeStrict d -> i < size d -> (forall m : space, In m all_min -> min_trap N m) -> (n_exp (get d i) = false -> ~ In (n_space (get d i)) all_min) -> exists u : sflow unit unit, py_expand_minimal_spaces__make_skip_node N cfg d i all_min = u /\ (u = SRet (make_skip_node N d i all_min) Datatypes.tt \/ u = SNext (make_skip_node N d i all_min) Datatypes.tt).
+Proof. exact py_make_skip_node_spec_weak. Qed.
+
+Theorem C03_source_make_skip_node_counterexample : exists (N : net) (cfg : config) (d : sd) (i : nat) (all_min : list space), SWF N d /\ TrapNodes N d /\ EdgeStrict d /\ i < size d /\ (forall m : space, In m all_min -> min_trap N m) /\ ~ (exists u : sflow unit unit, py_expand_minimal_spaces__make_skip_node N cfg d i all_min = u /\ (u = SRet (make_skip_node N d i all_min) Datatypes.tt \/ u = SNext (make_skip_node N d i all_min) Datatypes.tt)).
+Proof. exact py_make_skip_node_spec_counterexample. Qed.
 
 (* translator tie: the function GENERATED from the current text of biobalm/_sd_algorithms/expand_bfs.py (PySrcSd.v, regenerated on every run; embedding PyLibSd.v) equals the model's expand_bfs for every diagram, every limit and every fuel *)
 Theorem C03_source_expand_bfs : forall (fuel : nat) (N : net) (cfg : config) (d : sd) (start level_limit size_limit : option nat), py_expand_bfs fuel N cfg d start level_limit size_limit = expand_bfs fuel N cfg d start level_limit size_limit.
@@ -29,6 +43,13 @@ Proof. exact py_expand_bfs_spec_all. Qed.
 (* ... and expand_dfs.py the model's expand_dfs *)
 Theorem C03_source_expand_dfs : forall (fuel : nat) (N : net) (cfg : config) (d : sd) (start stack_limit size_limit : option nat), py_expand_dfs fuel N cfg d start stack_limit size_limit = expand_dfs fuel N cfg d start stack_limit size_limit.
 Proof. exact py_expand_dfs_spec_all. Qed.
+
+(* the public methods SuccessionDiagram.expand_bfs / expand_dfs (generated from the source: they pass their parameters on in order) *)
+Theorem C03_source_public_expand_bfs : forall (fuel : nat) (N : net) (cfg : config) (d : sd) (start level_limit size_limit : option nat), py_api_expand_bfs fuel N cfg d start level_limit size_limit = expand_bfs fuel N cfg d start level_limit size_limit.
+Proof. exact py_api_expand_bfs_spec. Qed.
+
+Theorem C03_source_public_expand_dfs : forall (fuel : nat) (N : net) (cfg : config) (d : sd) (start stack_limit size_limit : option nat), py_api_expand_dfs fuel N cfg d start stack_limit size_limit = expand_dfs fuel N cfg d start stack_limit size_limit.
+Proof. exact py_api_expand_dfs_spec. Qed.
 
 Theorem C03_bfs_complete : forall (fuel : nat) (N : net) (cfg : config) (d d' : sd), 1 <= max_motifs cfg -> SWF N d -> NoStubEdges d -> EdgeStrict d -> Rooted d -> expand_bfs fuel N cfg d None None None = (d', RBool true) -> AllExpanded d'.
 Proof. exact bfs_complete. Qed.
@@ -157,8 +178,14 @@ Example C03_example_block : length (minimal_ids (fst (expand_block 100 ex_sw ex_
   size (fst (expand_block 100 ex_sw ex_cfg (init ex_sw) false true None [])) = 9.
 Proof. vm_compute. split; reflexivity. Qed.
 
+Print Assumptions C03_source_expand_minimal_spaces.
+Print Assumptions C03_source_public_expand_minimal_spaces.
+Print Assumptions C03_source_make_skip_node.
+Print Assumptions C03_source_make_skip_node_counterexample.
 Print Assumptions C03_source_expand_bfs.
 Print Assumptions C03_source_expand_dfs.
+Print Assumptions C03_source_public_expand_bfs.
+Print Assumptions C03_source_public_expand_dfs.
 Print Assumptions C03_bfs_complete.
 Print Assumptions C03_dfs_complete.
 Print Assumptions C03_leaves_are_min_traps.
